@@ -558,7 +558,8 @@ def growth_twins(ck, seed, n_rounds):
                             it.small()
                     else:
                         p.randomize()
-                out.append(["ok", len(p.items), [int(e.a) for e in p.items], [int(e.a) for e in p.objs], [int(v) for v in p.l], int(p.x)])
+                out.append(["ok", len(p.items), [int(e.a) for e in p.items], [int(e.a) for e in p.objs], [int(v) for v in p.l], int(p.x),
+                            k % 3 == 2])
             except Exception as e:
                 out.append(["raised", type(e).__name__])
         return out
@@ -572,11 +573,13 @@ def growth_twins(ck, seed, n_rounds):
             ck.count("eval_growth_twins")
             # the constraints the user wrote hold over the grown lists
             for r in got:
-                if r[0] == "ok" and (any(a >= 20 for a in r[3]) or any(v >= 30 for v in r[4]) or r[1] > 8):
+                if r[0] == "ok" and (any(a >= 20 for a in r[3]) or any(v >= 30 for v in r[4]) or r[1] > 8 or
+                                     (r[6] and any(v >= 10 for v in r[4]))):
                     ck.oracle_fail("list-constraint-not-applied-to-grown-list:after:" + name, {"first": name, "seeds": seeds}, r,
-                                   "objs[*].a < 20, l[*] < 30, items.size <= 8 over the lists as they are now")
+                                   "objs[*].a < 20, l[*] < 30 (< 10 in a call that names the dynamic constraint), items.size <= 8 "
+                                   "over the lists as they are now")
                     break
-            if is_fault and got != twin:
+            if got != twin:
                 k = next(i for i in range(len(twin)) if got[i] != twin[i])
                 ck.oracle_fail("later-call-differs-after-failed-call:" + name, {"first": name, "seeds": seeds, "call": k},
                                got[k], twin[k])
